@@ -266,8 +266,14 @@ def atomicsOk (t : List MethodEntry) : Bool :=
       t.all (fun m' => m'.type != m.type || m'.paths.all (fun p => !p.flags.contains "twoAtomicWritesInLock"))
     else true)
 
+/-- The library's own goroutines (`go c.cleanup()`: table rows `go:<name>`): what such an actor does to the shared state
+per iteration of its loop is ONE critical section on every path (the analysis takes loops 0 or 1 times) — the janitor's
+tick is one atomic step for every caller, exactly like the public `DeleteExpired` it stands for. -/
+def goroutinesOk (t : List MethodEntry) : Bool :=
+  t.all (fun m => m.paths.all (fun p => !p.flags.contains "goroutine" || lockedSections p ≤ 1))
+
 def linTableOk (t : List MethodEntry) : Bool :=
-  atomicsOk t &&
+  atomicsOk t && goroutinesOk t &&
   singleOps.all (fun o => t.any (fun m => m.type == o.1 && m.method == o.2 && m.inst == 0)) &&
   t.all (fun m =>
     if singleOps.contains (m.type, m.method) && m.inst == 0 then
